@@ -49,7 +49,7 @@ Fixpoint glob_compile (fuel : nat) (prev : option N) (acc : list gtok) (s : str)
   | O => OutOfFuel
   | S f =>
       match s with
-      | [] => Val (List.rev acc)
+      | [] => Val (frev acc)
       | c :: r =>
           if c =? 63 then glob_compile f (Some 63) (TAny :: acc) r
           else if c =? 42 then
